@@ -6,6 +6,9 @@ import (
 	"fmt"
 	"go/types"
 	"math/big"
+	"os"
+	"reflect"
+	"strconv"
 	"strings"
 
 	"symgo/term"
@@ -393,6 +396,12 @@ func strEqTerm(fr *frame, x, y value) *term.Term {
 				if fc := jsonFirstChars(fr, bl.blob); fc != "" && !strings.ContainsRune(fc, rune(other[k].c)) {
 					return term.False
 				}
+				if fb := protoFirstBytes(bl.blob); fb != nil && !fb[other[k].c] {
+					return term.False
+				}
+				if os.Getenv("SYMGO_DEBUG") == "blob" {
+					fmt.Fprintf(os.Stderr, "blob-vs-literal undecided: codec=%s typ=%v first=%q set=%v\n", bl.blob.codec, bl.blob.typ, other[k].c, protoFirstBytes(bl.blob))
+				}
 			}
 			panic(unsupported("string equality: opaque codec output against other bytes"))
 		}
@@ -662,6 +671,58 @@ func strSplit(fr *frame, v value, sep string, n int) []value {
 }
 
 // jsonFirstChars returns the bytes a JSON blob of this type can start with ("" = unknown).
+// protoFirstBytes: the bytes a (non-empty) protobuf encoding of the blob's message type can start
+// with - the first byte of the tag of any of its fields (nil = not known).
+func protoFirstBytes(b *blobCell) map[byte]bool {
+	if b.codec != "proto" || b.typ == nil {
+		return nil
+	}
+	t := b.typ
+	if p, ok := t.Underlying().(*types.Pointer); ok {
+		t = p.Elem()
+	}
+	st, ok := t.Underlying().(*types.Struct)
+	if !ok {
+		return nil
+	}
+	out := map[byte]bool{}
+	for i := 0; i < st.NumFields(); i++ {
+		tag := reflect.StructTag(st.Tag(i)).Get("protobuf")
+		if tag == "" {
+			if strings.HasPrefix(st.Field(i).Name(), "XXX_") {
+				continue
+			}
+			return nil
+		}
+		parts := strings.Split(tag, ",")
+		if len(parts) < 2 {
+			return nil
+		}
+		num, err := strconv.Atoi(parts[1])
+		if err != nil {
+			return nil
+		}
+		wt := map[string]int{"varint": 0, "zigzag32": 0, "zigzag64": 0, "fixed64": 1, "bytes": 2, "group": 3, "fixed32": 5}
+		w, ok := wt[parts[0]]
+		if !ok {
+			return nil
+		}
+		key := num<<3 | w
+		if key < 128 {
+			out[byte(key)] = true
+		} else {
+			out[byte(key&0x7f)|0x80] = true
+		}
+		// a packed repeated scalar field is written with wire type 2
+		if sl, ok := st.Field(i).Type().Underlying().(*types.Slice); ok && w != 2 {
+			if _, isBasic := sl.Elem().Underlying().(*types.Basic); isBasic {
+				out[byte((num<<3|2)&0x7f)|map[bool]byte{true: 0x80, false: 0}[num<<3|2 >= 128]] = true
+			}
+		}
+	}
+	return out
+}
+
 func jsonFirstChars(fr *frame, b *blobCell) string {
 	if b.codec != "json" || b.typ == nil {
 		return ""
